@@ -26,7 +26,7 @@ CLAIMED = {
  "C03": dict(cat="exploration",
    text="writer and reader tasks over a simulated connection with back-pressure, latency and short reads: 1-40 generated frames of every kind written back-to-back and decoded until EOF by three decoding routes; declared lengths checked against the tapped bytes, an independent splitter by declared length, exact consumption at every frame boundary, and no party left waiting for bytes that never come",
    ref="DESIGN.md §5 C03",
-   note="sampled frames and delivery schedules; the per-notation LengthOf*/Write* clause over whole value domains is pure and covered only as exercised by generated frames (said in the evidence)",
+   note="sampled frames, delivery schedules, decoder source types, cut streams and refused frames in between; the per-notation LengthOf*/Write*/Read* clause is a pure function of its input and is covered by a direct boundary sweep (scenario notations: every vint magnitude class, lengths around powers of two), a supplement with no scheduling or fault in it, labelled as such in the evidence",
    tech=TECH+" (writer/reader tasks over a simulated byte stream with seeded chunking and back-pressure; wire-tap length oracle)"),
  "C05": dict(cat="exploration",
    text="a proxy task between two simulated links forwards generated frames with each of the partial operations a proxy uses, from non-seekable and seekable sources; exact consumption, agreement of both decoding routes and end-to-end equality are checked; the re-encode clause is checked on valid and on mutated-in-transit encodings",
@@ -34,7 +34,7 @@ CLAIMED = {
    note="sampled frames, operations and mutations; v5 frames travel as plain envelopes (a proxy of segments is out of scope); three known findings cover the re-encode clause on mutated input only",
    tech=TECH+" (proxy task between two simulated links, seeded delivery and in-transit mutation; consumption and equality oracles)"),
  "C18": dict(cat="exploration",
-   text="2-4 tasks make calls on shared codec instances (frame, raw, segment, compressors, datacodec singletons and composite codecs) with every statement of the codec packages a seeded scheduling point; each result must equal the sequential result on the same instances, before and after. The data-race clause is covered by a supplementary -race run with real goroutines, labelled non-deterministic in the evidence",
+   text="2-6 tasks make calls on shared codec instances (frame, raw, segment, compressors, datacodec singletons and composite codecs) with every statement of the codec packages a seeded scheduling point; each result must equal the sequential result (first use drawn: warm instances, fresh instances, or cold package state restored before every run; focused runs on one codec family). The data-race clause is covered by a supplementary -race run with real goroutines, labelled non-deterministic in the evidence",
    ref="DESIGN.md §5 C18",
    note="sampled interleavings at statement granularity (not memory-access granularity); vendored lz4/snappy run atomically between yields; the race-detector supplement observes executions it does not control, so its replay is best-effort",
    tech=TECH+" (statement-level seeded interleaving of tasks on shared codec instances, result equality with sequential passes; plus race-detector stress as labelled supplement)"),
@@ -49,7 +49,7 @@ CLAIMED = {
    note="exhaustive only for the sub-spaces the evidence lists under enumerated_subspaces; alterations outside the guaranteed range are not injected; the direct family calls DecodeSegment without the scheduler (there is nothing to interleave), the live family runs under the full simulator",
    tech=TECH+" (bit-flip fault enumeration on segments in transit; live-connection corruption with delivery oracle)"),
  "C10": dict(cat="exploration",
-   text="seeded fault-free sessions on a real client connection with 1-8 concurrent senders; the peer answers in drawn permutations with gaps, multi-page responses, interleaved events and spurious responses; exactly-once, in-order routing checked over the recorded history",
+   text="seeded fault-free sessions on a real client connection with 1-8 concurrent senders; the peer answers in drawn permutations with gaps, multi-page responses (also overflowing MaxPending, slower than the read timeout as a whole, or with a large first page), interleaved events and spurious responses; a timeout mode with caller-chosen ids reused and answers arriving after the timeout; exactly-once, in-order routing checked over the recorded history",
    ref="DESIGN.md §5 C10",
    note="sampled schedules and response orders; peer is the repository's own server connection driven by harness tasks (a raw refwire peer is added where available); tags inside frames make every response attributable",
    tech=TECH+" (seeded interleavings + permuting peer; exactly-once routing oracle over the recorded history)"),
